@@ -233,8 +233,9 @@ example :
 /-! ## L6 — `BuildOptimalHuffmanTable` (code-shaped model `JLL.Opt.buildOptimal`) -/
 
 /-- safety: with at most 32 non-zero frequencies among the 256 (the lossless alphabet has 17) neither
-    the `bits[size]` index panic (code length > 32) nor any other panic nor non-termination of the
-    `others` chain walks is reachable -/
+    the `bits[size]` index panic nor any other panic nor non-termination of the `others` chain
+    walks is reachable.  (Since fix PENDING:c11-huffman-depth-over-32 the count hypothesis is not
+    needed any more: `optimal_table_total` below.) -/
 theorem optimal_table_no_panic (f : List Nat) (hlen : f.length = 256)
     (hc : f.countP (fun x => x != 0) ≤ 32) : ∃ r, Opt.buildOptimal f = .ok r :=
   Opt.buildOptimal_ok_of_count f hlen hc
@@ -254,32 +255,63 @@ example : Opt.LosslessFreq (catFreq [0, 3, 3, 16, 7]) := catFreq_lossless _ (by 
 
 /-! ### L6 for ANY alphabet (≤ 256 symbols: the DCT codecs' DC/AC tables use the same function) -/
 
-/-- `BuildOptimalHuffmanTable` returns normally exactly when no pre-limit code size exceeds 32
-    (`DepthLe f 32`, executable); otherwise it hits the `bits[size]` index panic; it never fails to
-    terminate.  No restriction on the alphabet: all 256 byte values may have non-zero frequency. -/
-theorem optimal_table_ok_iff_depth (f : List Nat) (hlen : f.length = 256) :
-    ((∃ r, Opt.buildOptimal f = .ok r) ↔ Opt.DepthLe f 32) ∧
-    (Opt.buildOptimal f = .panic ↔ ¬ Opt.DepthLe f 32) ∧ Opt.buildOptimal f ≠ .err :=
-  ⟨Opt.buildOptimal_ok_iff f hlen, Opt.buildOptimal_panic_iff f hlen, Opt.buildOptimal_ne_err f hlen⟩
+/-- `BuildOptimalHuffmanTable` returns normally for ANY 256 frequencies: no panic, no
+    non-termination.  Since fix PENDING:c11-huffman-depth-over-32 the work array `bits` has 257 entries
+    (`maxHuffmanCodeLength = 256`), so `bits[size]++` is in range for every possible code size: a
+    Huffman tree over the 256 symbols plus the pseudo-symbol is at most 256 levels deep
+    (`Opt.depthLe_256`).  Before the fix the array had 33 entries and the function panicked exactly
+    when the depth of the unrestricted code exceeded 32.  No restriction on the alphabet: all 256
+    byte values may have non-zero frequency. -/
+theorem optimal_table_total (f : List Nat) (hlen : f.length = 256) :
+    (∃ r, Opt.buildOptimal f = .ok r) ∧ Opt.buildOptimal f ≠ .panic ∧ Opt.buildOptimal f ≠ .err :=
+  ⟨Opt.buildOptimal_total f hlen, Opt.buildOptimal_ne_panic f hlen, Opt.buildOptimal_ne_err f hlen⟩
 
-/-- under depth ≤ 32 the result is a valid table for ANY alphabet: 16 non-negative counts summing to
-    the number of values, values = exactly the symbols with non-zero frequency (each once), strict
-    Kraft inequality (all-ones code reserved), code lengths ≤ 16 -/
-theorem optimal_table_valid_any_alphabet (f : List Nat) (hlen : f.length = 256) (hd : Opt.DepthLe f 32) :
+/-- the result is a valid table for ANY alphabet and ANY counts — no bound on the counts or their
+    total remains: 16 non-negative counts summing to the number of values, values = exactly the
+    symbols with non-zero frequency (each once), strict Kraft inequality (all-ones code reserved),
+    code lengths ≤ 16 -/
+theorem optimal_table_valid_any_alphabet (f : List Nat) (hlen : f.length = 256) :
     ∃ bits values, Opt.buildOptimal f = .ok (bits, values) ∧
       bits.length = 16 ∧ (∀ x ∈ bits, 0 ≤ x) ∧ (bits.map Int.toNat).sum = values.length ∧
       values.Nodup ∧ (∀ i, i ∈ values ↔ i < 256 ∧ f[i]?.getD 0 ≠ 0) ∧ Opt.kraft16 bits < 65536 :=
-  Opt.buildOptimal_valid_of_depth f hlen hd
+  Opt.buildOptimal_valid f hlen
 
 /-- the depth is bounded by the total count: a code size d ≥ 1 needs fib (d+2) ≤ total + 1, so every
-    frequency vector with fewer than fib 35 − 1 = 9 227 464 counted symbols (e.g. any image of up to
-    ~9.2 million coefficients per table) has depth ≤ 32 and therefore a valid table and no panic.
-    The bound is sharp (`[fib 33, …, fib 1]` has total fib 35 − 1 and depth 33). -/
+    frequency vector with fewer than fib 35 − 1 = 9 227 464 counted symbols has depth ≤ 32.  No
+    longer needed for safety (`optimal_table_total` holds without it); kept because it says when
+    the length-limiting loop has work beyond size 32 (only from that total on), i.e. when the code
+    differs from what libjpeg's 33-entry array could handle.  The bound is sharp (`[fib 33, …, fib 1]`
+    has total fib 35 − 1 and depth 33). -/
 theorem optimal_table_depth_from_total (f : List Nat) (hlen : f.length = 256)
     (hs : f.sum + 1 < 9227465) : Opt.DepthLe f 32 ∧ Opt.fib 35 = 9227465 :=
   ⟨Opt.depthLe_of_sum f hlen hs, Opt.fib_35⟩
 
 example : (catFreq [0, 3, 3, 16, 7]).length = 256 := by simp [catFreq]
+
+/-- hypotheses of `optimal_table_depth_from_total` are satisfiable; and an alphabet with all 256
+    symbols present is admissible for `optimal_table_total` / `optimal_table_valid_any_alphabet` -/
+example : (List.replicate 256 1).length = 256 ∧ (List.replicate 256 1).sum + 1 < 9227465 :=
+  ⟨List.length_replicate, by rw [List.sum_replicate_nat]; decide⟩
+
+/-- regression / non-vacuity on the former panic witness `[fib 33, fib 32, …, fib 2, fib 1]` (total
+    fib 35 − 1 = 9 227 464, just outside `optimal_table_depth_from_total`; depth 33): before fix
+    PENDING:c11-huffman-depth-over-32 `bits[33]++` was out of range on it, now the function returns
+    normally.  (`#eval` of the model gives `.ok ([1,1,1,1,1,1,1,1,1,1,1,0,1,0,2,19], [223, …, 255])`
+    and `Opt.maxDepth f = 33`.  Kernel evaluation of the run takes > 5 min, so the instance is stated
+    through the theorem.) -/
+example :
+    let f : List Nat := List.replicate 223 0 ++
+      [3524578, 2178309, 1346269, 832040, 514229, 317811, 196418, 121393, 75025, 46368, 28657,
+       17711, 10946, 6765, 4181, 2584, 1597, 987, 610, 377, 233, 144, 89, 55, 34, 21, 13, 8, 5, 3, 2, 1, 1]
+    f.length = 256 ∧ f.sum + 1 = 9227465 ∧
+    (∃ r, Opt.buildOptimal f = .ok r) ∧ Opt.buildOptimal f ≠ .panic ∧ Opt.buildOptimal f ≠ .err := by
+  intro f
+  have hlen : f.length = 256 := by
+    simp only [f, List.length_append, List.length_replicate, List.length_cons, List.length_nil]
+  have hsum : f.sum + 1 = 9227465 := by
+    simp only [f, List.sum_append, List.sum_replicate_nat, List.sum_cons, List.sum_nil, Nat.reduceMul,
+      Nat.reduceAdd]
+  exact ⟨hlen, hsum, optimal_table_total f hlen⟩
 
 /-! ## L6 + L7 — the scan round trip with the per-image optimal table, no table hypothesis left -/
 
